@@ -67,9 +67,15 @@ package core
 
 // ---- bundle upload driver (C04 batching, C06 descriptor last) ------------------------------------
 
+// the upload slot doubles as the completion barrier of uploadBundleFiles: it is given back only by
+// the deferred hook, i.e. after the result (entry or error) has been handed over
 //@ func uploadBundleFile
+//@   recv chans.concurrencyControl flag released
+//@   only recv:chans.concurrencyControl 0
 //@   send chans.error#1 assert [non-nil] $val.error != nil
+//@   send chans.error#1 assert [slot-still-held] !released
 //@   send chans.filePacked#1 assert [entry] $val.name == file && $val.idx == fileIdx
+//@   send chans.filePacked#1 assert [slot-still-held] !released
 
 
 //@ func uploadBundle
@@ -142,6 +148,16 @@ package core
 //@   send keyBatchChan#3 assert [page] $val.keys == ks && $val.err == nil && len(ks) > 0
 //@   ensures [complete] !interrupted && itErr_set && itErr == nil ==> next == ""
 
+// merging the states of one diamond/split: a key is emitted at one place only, when its object is
+// settled (a second state was seen, or a lone running state); a final state seen earlier wins
+//@ func mergeKeys
+//@   only append 1
+//@   only delete 1
+//@   only send:outputChan 1
+//@   call append#1 assert [emitted-when-settled] keyState.count > 1 || (keyState.count == 1 && !keyState.isFinal)
+//@   call append#1 assert [emits-retained] $1[0] == retained
+//@   send outputChan#1 assert [batch-out] $val.keys == filtered && $val.err == err
+
 // keep exactly the keys whose base name starts with the filter; token and error pass through
 //@ func basenameKeyFilter$1
 //@   call Base#1 assert [of-key] $0 == key
@@ -185,6 +201,11 @@ package core
 //@   call DeleteBundle#1 assert [the-listed-id] $bundleID == bundle.ID && $repo == repoName
 //@   call DeleteBundle#1 assert [labelled-kept] (settings.retainTags || settings.retainSemverTags) ==> !has(labelsIndex, bundle.ID)
 //@   call DeleteLabel#1 assert [dangling-only] !has(bundlesIndex, l.BundleID) && $name == l.Name && $repo == repoName
+// which labelled bundles are retained: every tag when tags are retained, else the semver ones
+//@   call ParseTolerant#1 assert [of-label-name] $0 == label.Name
+//@   call ParseTolerant#1 bind semverErr = $ret1
+//@   loop 2 step [any-tag-retained] settings.retainTags ==> has(labelsIndex, label.BundleID)
+//@   loop 2 step [semver-tag-retained] !settings.retainTags && semverErr_set && semverErr == nil ==> has(labelsIndex, label.BundleID)
 
 // ---- bundle diff (C05): exactly the paths added, removed or changed, each once ---------------------
 // soundness at every append, completeness as a per-iteration step (prev = start of the iteration)
@@ -285,6 +306,8 @@ package core
 //@   call Delete#1 assert [own-file-list] fl1_set && $key == fl1 && $self == ms
 //@   call Delete#2 assert [own-file-list] fl2_set && $key == fl2 && $self == ms
 //@   call Delete#3 assert [own-descriptor] $key == pth && $self == ms
+// the descriptor goes last, after every one of its file lists was attempted (none is left behind)
+//@   call Delete#3 assert [all-file-lists-attempted] (indexFiles == 0 && options.ignoreBundleError) || i#2 >= indexFiles
 //@   call DeleteLabel#1 assert [label-of-this-bundle] l.BundleID == bundleID && $repo == repo && $name == l.Name
 
 //@ func DeleteEntriesFromRepo
@@ -482,3 +505,32 @@ package core
 // the purge lock is created if absent unless forced
 //@ func PurgeLock
 //@   call Put#1 assert [lock-create-if-absent-unless-forced] $key == model.PurgeLock() && ($noOverwrite <==> !options.force)
+
+// ---- whole-repository operations (C09): only keys of the named repository are touched ------------
+//@ func DeleteRepo
+//@   call ListBundles#1 assert [own-bundles] $repo == repo
+//@   call DeleteBundle#1 assert [own-bundle] $repo == repo && $bundleID == b.ID
+//@   call ListLabels#1 assert [own-labels] $repo == repo
+//@   call ListLabels#1 bind le = $ret1
+//@   call DeleteLabel#1 assert [own-label] $repo == repo && $name == l.Name
+//@   call GetArchivePathToRepoDescriptor#1 assert [own-descriptor] $repo == repo
+//@   call GetArchivePathToRepoDescriptor#1 bind dpth = $ret0
+//@   call Delete#1 assert [descriptor-last] le_set && le == nil && dpth_set && $key == dpth
+//@   only Delete 1
+
+//@ func RenameRepo
+//@   call RepoExists#1 assert [source-exists] $repo == repo
+//@   call RepoExists#2 assert [target-absent] $repo == newRepo
+//@   call RepoExists#2 bind te = $ret0
+//@   call CreateRepo#1 assert [target-created-first] te_set && te != nil && $repo.Name == newRepo
+//@   call CreateRepo#1 bind ce = $ret0
+//@   call DeleteRepo#1 assert [source-removed-last] ce_set && ce == nil && $repo == repo
+//@   only DeleteRepo 1
+
+//@ func RenameRepo$1
+//@   call GetArchivePathToBundleFileList#1 assert [from-source] $repo == repo && $index == i
+//@   call GetArchivePathToBundleFileList#1 bind srcID = $bundleID
+//@   call GetArchivePathToBundleFileList#2 assert [to-target] $repo == newRepo && $index == i
+//@   call Get#1 assert [reads-source] $key == oldFileList
+//@   call PutCRC#1 assert [writes-target-create-if-absent] $key == newFileList && $noOverwrite == storage.NoOverWrite
+//@   call Put#1 assert [writes-target-create-if-absent] $key == newFileList && $noOverwrite == storage.NoOverWrite
